@@ -1,4 +1,5 @@
 import JsonVerif.Lemmas.Unordered
+import JsonVerif.Lemmas.UnorderedComplete
 /-!
 # C15 — Unordered equality is exactly equality up to permutation of object entries
 
@@ -12,10 +13,20 @@ relation and is implied by ordinary equality.
 namespace JsonVerif.C15
 open JsonVerif
 
-/-- Full statement. The ⇒ half is `C15_sound_partial`; the ⇐ half (the greedy one-to-one matching
-    finds a matching whenever one exists, because the relation is an equivalence one level down) is
-    not yet proved in Lean and is covered by the exhaustive small-object stream. -/
-def C15_full : Prop := ∀ a b : JValue, ueq a b = true ↔ PermEq a b
+/-- **Exactly equality up to permutation**, full statement, for all values, any nesting, any
+    duplicates: `unordered_eq` holds if and only if one value can be turned into the other by
+    permuting object entries at any depth (entries matched one-to-one). The ⇐ half is the
+    completeness of the greedy matching: the first not-yet-paired entry with the same key and a
+    related value is as good as any, because related values form equivalence classes. -/
+theorem C15_exact (a b : JValue) : ueq a b = true ↔ PermEq a b := ueq_iff a b
+
+/-- **It is an equivalence relation**: reflexive (`C15_of_eq`), symmetric, transitive. -/
+theorem C15_equivalence :
+    (∀ a, ueq a a = true) ∧ (∀ a b, ueq a b = true → ueq b a = true) ∧
+    (∀ a b c, ueq a b = true → ueq b c = true → ueq a c = true) :=
+  ⟨ueq_refl,
+   fun a b h => (ueq_iff b a).mpr (PermEq.symm a b ((ueq_iff a b).mp h)),
+   fun a b c h1 h2 => (ueq_iff a c).mpr (PermEq.trans a b c ((ueq_iff a b).mp h1) ((ueq_iff b c).mp h2))⟩
 
 /-- **Soundness** (for all values, any nesting, any duplicates): `unordered_eq` never relates two
     values that are not equal up to a one-to-one permutation of object entries at every depth. -/
